@@ -18,3 +18,11 @@ Definition run_life (c : bool * bool * bool * list lop) : V :=
 (** the W* macros: (status) -> [WIFEXITED, WEXITSTATUS, WIFSIGNALED, WTERMSIG, WIFSTOPPED] *)
 Definition run_wstatus (ss : list Z) : V :=
   vlist (fun s => VL [vbool (WIFEXITED s); VI (WEXITSTATUS s); vbool (WIFSIGNALED s); VI (WTERMSIG s); vbool (WIFSTOPPED s)]) ss.
+
+(** fdspawn / SocketSpawn lifecycle (job fd-life): (is_socket, ops) -> per op [result, state] *)
+From PV Require Import Life.FdModel.
+Definition enc_fres (r : fres) : V := match r with FOk => VL [VI 0] | FBool b => VL [VI 1; vbool b] | FErr => VL [VI 2] end.
+Definition enc_fdw (w : fdw) : V := VL [vbool (f_valid w); vbool (f_closed w); vbool (os_open w); vnat (f_releases w)].
+Fixpoint run_fops (s : bool) (w : fdw) (ops : list fop) : list V :=
+  match ops with [] => [] | o :: r => let '(x, w') := fstep s w o in VL [enc_fres x; enc_fdw w'] :: run_fops s w' r end.
+Definition run_fdlife (c : bool * list fop) : V := match c with (s, ops) => VL (run_fops s fd0 ops) end.
